@@ -38,9 +38,9 @@ LEVEL_TEXT = (
 LEVEL_NOTE = "Trusted: the step protocol (a task executes exactly one step per release); reference stacks; virtual loop."
 ASSUMPTIONS = [
     "a task blocked inside a scope exit (waiting for tasks spawned into that scope) is 'mid-operation' and not probed until it finishes the step",
-    "probes use explicit sentinel defaults (side-effect free); lookups without default are separate generated steps",
+    "per case the per-step probes use explicit sentinel defaults, no default at all, or both; a lookup without default may cache a default-constructed instance inside the library, which must not change what any task sees",
 ]
-REQUIRED_CLASSES = ["concurrent-different-values", "context-switch-inside", "ctx-spawn", "asyncio-create_task", "exhaustive-interleavings"]
+REQUIRED_CLASSES = ["concurrent-different-values", "context-switch-inside", "ctx-spawn", "asyncio-create_task", "exhaustive-interleavings", "lookups-without-default-compared"]
 
 CAP = 3000
 
@@ -66,14 +66,24 @@ def execute(case, sched: Sched):
     labels = {id(s): ("sentinel", n) for n, s in sent.items()}
     keep = []
 
+    fp_mode = case.get("fp", "default")
+
     def fingerprint():
+        """the task's view per family type: with an explicit sentinel default and / or without any default"""
         st_ = {}
         for n, T in P.FAMILY.items():
-            try:
-                v = ctx.state(T, default=sent[n])
-                st_[n] = labels.get(id(v), ("unknown", repr(v)))
-            except Exception as exc:  # noqa: BLE001
-                st_[n] = type(exc).__name__
+            if fp_mode in ("default", "both"):
+                try:
+                    v = ctx.state(T, default=sent[n])
+                    st_[n] = labels.get(id(v), ("unknown", repr(v)))
+                except Exception as exc:  # noqa: BLE001
+                    st_[n] = type(exc).__name__
+            if fp_mode in ("nodefault", "both"):
+                try:
+                    v = ctx.state(T)
+                    st_[n, "nodefault"] = labels.get(id(v), ("unknown", repr(v)))
+                except Exception as exc:  # noqa: BLE001
+                    st_[n, "nodefault"] = type(exc).__name__
         return st_
 
     async def main(loop):
@@ -82,7 +92,7 @@ def execute(case, sched: Sched):
         def expected(tid):
             ref = tasks[tid]["ref"]
             if tasks[tid]["ctxless"] and not ref:
-                return {n: "MissingContext" for n in P.FAMILY}
+                return {k: "MissingContext" for n in P.FAMILY for k in (n, (n, "nodefault"))}
             res = {}
             for n in P.FAMILY:
                 hit = None
@@ -91,6 +101,14 @@ def execute(case, sched: Sched):
                         hit = fr[n]
                         break
                 res[n] = hit if hit is not None else [("sentinel", n)]
+                if hit is not None:
+                    res[n, "nodefault"] = hit
+                elif n in P.DEFAULTABLE:
+                    res[n, "nodefault"] = [("unknown", repr(P.FAMILY[n]()))]
+                elif n == "G":
+                    res[n, "nodefault"] = None  # bare generic: default-constructibility unspecified
+                else:
+                    res[n, "nodefault"] = "MissingState"
             return res
 
         async def runner(tid):
@@ -216,17 +234,23 @@ def execute(case, sched: Sched):
                 got, exp = tasks[t].get("last_fp"), expected(t)
                 if got is None:
                     continue
-                for n in P.FAMILY:
-                    ok = got[n] == exp[n] if isinstance(exp[n], str) else got[n] in exp[n]
+                for key in got:
+                    n = key if isinstance(key, str) else key[0]
+                    if exp[key] is None:
+                        continue
+                    ok = got[key] == exp[key] if isinstance(exp[key], str) else got[key] in exp[key]
                     if not ok:
                         who = "own-block-lost" if any(n in fr for fr in tasks[t]["ref"]) else "foreign-state-visible"
+                        form = "" if isinstance(key, str) else "/lookup-without-default"
                         obs["violations"].append(
                             (
-                                f"C03.isolation/{who}",
-                                f"after step {obs['steps']} (task {tid} stepped) task {t} sees {n}={got[n]} expected {exp[n]}; schedule={[c for c, _ in sched.trace]}",
+                                f"C03.isolation/{who}{form}",
+                                f"after step {obs['steps']} (task {tid} stepped) task {t} sees {key}={got[key]} expected {exp[key]}; schedule={[c for c, _ in sched.trace]}",
                             )
                         )
-                    vals.setdefault(n, set()).add(str(got[n]))
+                    vals.setdefault(n, set()).add(str(got[key]))
+                if fp_mode != "default":
+                    obs["classes"].add("lookups-without-default-compared")
             if any(len(v) >= 2 for v in vals.values()) and len(inside) >= 2:
                 obs["classes"].add("concurrent-different-values")
             if obs["violations"]:
@@ -348,7 +372,8 @@ def strategy(tier):
             scripts[parent].insert(pos, {"s": "spawn", "via": draw(st.sampled_from(["ctx", "asyncio"])), "task": child})
             spawned.add(child)
         choices = None if exhaustive else draw(st.lists(st.integers(0, 3), min_size=0, max_size=30))
-        return {"tasks": scripts, "choices": choices, "exhaustive": exhaustive}
+        fp = draw(st.sampled_from(["default", "nodefault", "both"]))
+        return {"tasks": scripts, "choices": choices, "exhaustive": exhaustive, "fp": fp}
 
     return cases()
 
